@@ -1,6 +1,7 @@
 package core
 
 import (
+	"go/constant"
 	"fmt"
 	"strings"
 
@@ -189,12 +190,14 @@ func (m *Machine[S]) Run() {
 						continue
 					}
 				}
-				nn := Node[S]{sb, ns}
-				if !seen[nn] {
-					seen[nn] = true
-					m.parent[nn] = n
-					work = append(work, nn)
-				}
+				m.thread(ctx, ns, n.B, sb, 0, func(tb *ssa.BasicBlock, ts S) {
+					nn := Node[S]{tb, ts}
+					if !seen[nn] {
+						seen[nn] = true
+						m.parent[nn] = n
+						work = append(work, nn)
+					}
+				})
 			}
 		}
 	}
@@ -372,17 +375,94 @@ func (m *Machine[S]) inlineCall(up *Frame, s S, c ssa.CallInstruction, depth int
 						continue
 					}
 				}
-				nn := Node[S]{sb, ns}
-				if !seen[nn] {
-					seen[nn] = true
-					work = append(work, nn)
-				}
+				m.thread(ctx, ns, n.B, sb, 0, func(tb *ssa.BasicBlock, ts S) {
+					nn := Node[S]{tb, ts}
+					if !seen[nn] {
+						seen[nn] = true
+						work = append(work, nn)
+					}
+				})
 			}
 		}
 	}
 	exits = dedup(exits)
 	m.memo[key] = exits
 	return exits, true
+}
+
+// condJoin: the block only joins the outcome of a short-circuit condition (a || b, a && b evaluated as a value) and
+// branches on it: phis (and debug references) followed by an If on one of those phis, which has no other use.
+func condJoin(b *ssa.BasicBlock) (*ssa.Phi, bool) {
+	if len(b.Instrs) < 2 {
+		return nil, false
+	}
+	iff, ok := b.Instrs[len(b.Instrs)-1].(*ssa.If)
+	if !ok {
+		return nil, false
+	}
+	ph, ok := iff.Cond.(*ssa.Phi)
+	if !ok || ph.Block() != b {
+		return nil, false
+	}
+	for _, in := range b.Instrs[:len(b.Instrs)-1] {
+		switch in.(type) {
+		case *ssa.Phi, *ssa.DebugRef:
+		default:
+			return nil, false
+		}
+	}
+	for _, ref := range *ph.Referrers() {
+		switch ref.(type) {
+		case *ssa.If, *ssa.DebugRef:
+		default:
+			return nil, false
+		}
+	}
+	return ph, true
+}
+
+// thread delivers state s to block to, entered from block from. A block that only joins and tests a short-circuit
+// condition is not entered: coming from a given predecessor the tested value is that predecessor's operand of the
+// phi - a constant decides the branch, any other operand is offered to Edge as the condition of the branch (through a
+// stand-in block), exactly as if the source had branched on it directly.
+func (m *Machine[S]) thread(ctx *Ctx[S], s S, from, to *ssa.BasicBlock, depth int, emit func(*ssa.BasicBlock, S)) {
+	ph, ok := condJoin(to)
+	if !ok || depth > 6 {
+		emit(to, s)
+		return
+	}
+	pi, n := -1, 0
+	for i, p := range to.Preds {
+		if p == from {
+			pi = i
+			n++
+		}
+	}
+	if n != 1 {
+		emit(to, s)
+		return
+	}
+	e := ph.Edges[pi]
+	if c, isC := e.(*ssa.Const); isC && c.Value != nil && c.Value.Kind() == constant.Bool {
+		idx := 1
+		if constant.BoolVal(c.Value) {
+			idx = 0
+		}
+		m.thread(ctx, s, to, to.Succs[idx], depth+1, emit)
+		return
+	}
+	stand := &ssa.BasicBlock{Index: to.Index, Comment: to.Comment, Instrs: []ssa.Instruction{&ssa.If{Cond: e}}, Succs: to.Succs, Preds: to.Preds}
+	for idx, tb := range to.Succs {
+		ns := s
+		if m.Edge != nil {
+			var keep bool
+			ns, keep = m.Edge(ctx, s, stand, idx)
+			if !keep {
+				continue
+			}
+		}
+		m.thread(ctx, ns, to, tb, depth+1, emit)
+	}
 }
 
 func dedup[S comparable](in []S) []S {
